@@ -181,13 +181,14 @@ def run_filenames_impl(case, scratch):
     snaps = []
 
     async def main(loop):
-        src = Stream.filenames(d if case["style"] == "dir" else os.path.join(d, "*"), poll_interval=0.5,
-                               asynchronous=True, loop=IOLoop.current())
+        # the documented spellings of the path: a directory, a directory with a trailing separator, a glob
+        target = {"dir": d, "dirsep": d + os.path.sep, "glob": os.path.join(d, "*")}[case["style"]]
+        src = Stream.filenames(target, poll_interval=0.5, asynchronous=True, loop=IOLoop.current())
         state = {"failed": False}
 
         def consume(path):
             got.append(path)
-            if case.get("fail_on") is not None and not state["failed"] and int(os.path.basename(path)[1:]) == case["fail_on"]:
+            if case.get("fail_on") is not None and not state["failed"] and os.path.basename(path)[1:] == str(case["fail_on"]).zfill(3):
                 state["failed"] = True
                 raise ValueError("consumer failed on this path")
         src.sink(consume)
@@ -210,8 +211,7 @@ def run_filenames_impl(case, scratch):
         src.stop()
         await vloop.advance(0.5, loop)
         # a second, independent source over the same directory (same process): it has seen nothing yet
-        src2 = Stream.filenames(d if case["style"] == "dir" else os.path.join(d, "*"), poll_interval=0.5,
-                                asynchronous=True, loop=IOLoop.current())
+        src2 = Stream.filenames(target, poll_interval=0.5, asynchronous=True, loop=IOLoop.current())
         src2.sink(second.append)
         src2.start()
         await vloop.settle(loop)
@@ -221,9 +221,12 @@ def run_filenames_impl(case, scratch):
 
     second = []
     snaps = vloop.run(main)
-    case["_second"] = [int(os.path.basename(p)[1:]) for p in second]
+    def num(p):
+        b = os.path.basename(p)
+        return int(b[1:]) if b[1:].isdigit() else -1        # anything that is not one of the files (e.g. the directory itself)
+    case["_second"] = [num(p) for p in second]
     case["_present"] = sorted(int(f[1:]) for f in os.listdir(d))
-    return [[int(os.path.basename(p)[1:]) for p in s] for s in snaps]
+    return [[num(p) for p in s] for s in snaps]
 
 
 # ------------------------------------------------------------------ cases
@@ -270,7 +273,7 @@ def gen_files_case(rng):
     ops.append(["p"])
     if rng.random() < 0.3:
         ops.append(["p"])
-    case = {"kind": "filenames", "style": rng.choice(["dir", "glob"]), "pre": pre, "ops": ops}
+    case = {"kind": "filenames", "style": rng.choice(["dir", "glob", "dirsep"]), "pre": pre, "ops": ops}
     if rng.random() < 0.3:
         names = sorted(set(pre) | {n for o in ops if o[0] == "c" for n in o[1]})
         case["fail_on"] = rng.choice(names)
